@@ -39,7 +39,14 @@
 (*          with raised = the call raised an exception, exc = its class.    *)
 (*          The document the code holds is ApplyCalls(hdr + ops, calls): a  *)
 (*          call the specification says is REJECTED (Rejects) must have     *)
-(*          raised and changes nothing; every other call must not raise     *)
+(*          raised and changes nothing; every other call must not raise.    *)
+(*          acc = the call did not raise: for a call the format does not    *)
+(*          settle (CopyrightDoc!MayReject: a value with a look-alike of     *)
+(*          white space inside) BOTH outcomes are explained -- refused and  *)
+(*          nothing changed, or carried out and the value is part of the    *)
+(*          document that must survive the round trips.  kind "fault": the  *)
+(*          caller's object failed during the call -- it raised, nothing    *)
+(*          changed, and the steps after it are explained as usual          *)
 (*   order  the paragraphs of the built object, as indexes into ops        *)
 (*   dump   its dump() as abstract physical lines [f, x] (f = field name   *)
 (*          of a field start, "" otherwise)                                *)
@@ -114,7 +121,8 @@ CallsFold(D, cs) == FoldLeft(LAMBDA acc, c : [d   |-> ApplyCall(acc.d, c),
                                              cls |-> acc.cls /\ (Rejects(acc.d, c) => c.exc = RejectExc(acc.d, c)),
                                              \* a refused call that was carried out: the document then holds a
                                              \* value outside the domain (the harness takes the trace as unspecified)
-                                             un  |-> acc.un \/ (Rejects(acc.d, c) /\ ~c.raised)],
+                                             \* (but a fault of the caller's object that was swallowed is a violation)
+                                             un  |-> acc.un \/ (Rejects(acc.d, c) /\ ~c.raised /\ c.kind # "fault")],
                              [d |-> D, ok |-> TRUE, cls |-> TRUE, un |-> FALSE], cs)
 
 \* (a header read from the deprecated field name Format-Specification has its Format field re-added last)
